@@ -19,8 +19,9 @@ in its slot-wise form SaModel/Spec/DecodeAt.lean; rendering of logical values: S
 * `read_typed_decode` (`read_typed_sound` + `targets_sound` / `tfields_sound` / `variants_sound` / `kind_sound`,
   `read_typed_decode_spec`, `read_option_null`, `C02_typed_layout_irrelevant`): typed reads (every target shape, any
   nesting) return what the value-level specification `cast` demands.
-* `cast_na_only` (`cast_na_iff`: the same implication with the value quantified), `cast_must_or_mustFail`: `cast` is
-  `na` only in cells where field names repeat (`naCell`); every other cell is `must d` or `mustFail`.
+* `cast_na_only` (`cast_na_only_if`: the same implication with the value quantified; `cast_na_iff` is its former name),
+  `cast_must_or_mustFail`: `cast` is `na` only in cells where field names repeat (`naCell`); every other cell is `must d`
+  or `mustFail`.  `cast_na_converse_fails`: not every cell that repeats names is `na` (target `any`).
 * `decimalRepr_spec`: the text of a Decimal128 slot is `format_decimal` of C15.
 * `read_any_decode_supported`, `read_typed_decode_supported`, `unsupported_refused`: the read theorems with
   `supportedView a` in place of `new a = ok` (`new_ok_iff_supported`, `Lemmas/C02Supported.lean`).
@@ -196,13 +197,29 @@ theorem cast_na_only (t : Target) (a : Arr) (lv : LVal) (h : Read.cast t a lv = 
     simp only [naCell, Bool.not_eq_false', Bool.and_eq_true] at hc
     exact absurd h (cast_nn t hc.1 a lv hc.2)
 
-/-- `cast_na_only` with the value quantified — ONE implication, left to right (the name says `iff`, the statement does
-not): if SOME value of the cell `(t, a)` is left without a claim, the cell repeats names (`naCell t a = true`).  The
-converse is not stated and does not hold: `naCell t a = true` as soon as a struct column inside `a` repeats a child
-name, while e.g. `cast .any a lv = must (toD a lv)` for every such `a`.  A cell that repeats names is outside of the
-claim of this file (`structClaim`). -/
-theorem cast_na_iff (t : Target) (a : Arr) : (∃ lv, Read.cast t a lv = na) → naCell t a = true :=
+/-- `cast_na_only` with the value quantified — ONE implication, left to right: if SOME value of the cell `(t, a)` is left
+without a claim, the cell repeats names (`naCell t a = true`).  The converse does not hold (`cast_na_converse_fails`
+below).  A cell that repeats names is outside of the claim of this file (`structClaim`). -/
+theorem cast_na_only_if (t : Target) (a : Arr) : (∃ lv, Read.cast t a lv = na) → naCell t a = true :=
   fun ⟨lv, h⟩ => cast_na_only t a lv h
+
+/-- the former name of `cast_na_only_if` (it said `iff`; the statement is, and was, one implication) -/
+theorem cast_na_iff (t : Target) (a : Arr) : (∃ lv, Read.cast t a lv = na) → naCell t a = true :=
+  cast_na_only_if t a
+
+/-- `deserialize_any` is never left without a claim, whatever the view: `cast .any a lv = must (toD a lv)` -/
+theorem cast_any_ne_na (a : Arr) (lv : LVal) : Read.cast .any a lv ≠ na := by
+  simp only [Read.cast]; intro h; cases h
+
+/-- **the converse of `cast_na_only_if` is false**: `naCell t a` is a property of the NAMES in the cell (it is true as soon
+as a struct column inside `a` repeats a child name), while whether `cast` answers depends on the target as well — the
+target `any` gets a claim for every view.  Witness: a struct column with two children `x`. -/
+theorem cast_na_converse_fails : ¬ ∀ (t : Target) (a : Arr), naCell t a = true → ∃ lv, Read.cast t a lv = na := by
+  intro h
+  obtain ⟨lv, hlv⟩ := h .any
+    (.struct 1 none (.cons ⟨"x", false, []⟩ (.prim .int32 none [1]) (.cons ⟨"x", false, []⟩ (.prim .int32 none [2]) .nil)))
+    (by decide)
+  exact cast_any_ne_na _ lv hlv
 
 theorem cast_must_or_mustFail (t : Target) (a : Arr) (lv : LVal) (h : naCell t a = false) :
     (∃ d, Read.cast t a lv = must d) ∨ (∃ e, Read.cast t a lv = .error e) := by
